@@ -20,13 +20,13 @@ Inductive val :=
 | VStr (s : list Z).
 
 Inductive exc := TypeError | ValueError | NameError | ZeroDivisionError | KeyError
-               | AttributeError | OtherError.
+               | AttributeError | ResolveError | OtherError.
 
 Definition exc_eqb (a b : exc) : bool :=
   match a, b with
   | TypeError, TypeError | ValueError, ValueError | NameError, NameError
   | ZeroDivisionError, ZeroDivisionError | KeyError, KeyError
-  | AttributeError, AttributeError | OtherError, OtherError => true
+  | AttributeError, AttributeError | ResolveError, ResolveError | OtherError, OtherError => true
   | _, _ => false
   end.
 
@@ -179,3 +179,13 @@ Definition py_max2 (a b : val) : res val :=
   bind (py_gt b a) (fun c => Ok (if py_truthy c then b else a)).
 Definition py_min2 (a b : val) : res val :=
   bind (py_lt b a) (fun c => Ok (if py_truthy c then b else a)).
+
+(* ---- shares seen as their ordered field names (C21 default-field rule) ------------------ *)
+Definition share := list (list Z).
+(* bool(share): Share.__len__ = number of fields *)
+Definition py_share_truthy (sh : share) : val := VBool (match sh with [] => false | _ => true end).
+(* key in share: hasattr(data, key) -- only string keys are modelled (anything else: False) *)
+Definition py_in_share (k : val) (sh : share) : val :=
+  VBool (match k with VStr s => existsb (str_eqb s) sh | _ => false end).
+Definition py_not_in_share (k : val) (sh : share) : val :=
+  VBool (negb (match k with VStr s => existsb (str_eqb s) sh | _ => false end)).
